@@ -4,7 +4,7 @@ CONSTANTS
   MaxDepth = 3
   MaxUnits = 1
   MaxRich = 1
-  MaxVar = 9
+  MaxVar = 30
   UnitKinds <- SweepUnits
   ConKinds <- Empty
   SpecKinds <- AllSpec
